@@ -88,6 +88,8 @@ def run(rep: Report, tier: str) -> None:
     _check_in(rep, r, m, classes["in"])
     _check_out(rep, r, m, classes["out"])
     _check_intra(rep, r, m, classes["intra"])
+    for ci in classes.values():
+        _check_read_order(rep, r, m, ci)
 
     # ---------------------------------------------------------------- C04.c
     _check_float_taint(rep, m, tier)
@@ -151,6 +153,38 @@ def _cmp(rep, r, ci, field, env, got, want, why):
         loc(ci.node),
         detail=show(want),
     )
+
+
+def _check_read_order(rep, r, m, ci) -> None:
+    """The case analysis above evaluates each field from its definitions; that is only the value *used* by a later definition when
+    no field is (re)defined after a statement that already read it (constructors are straight-line: source order = execution order)."""
+    defs = m.field_defs(ci)
+    init = m.init_of(ci)
+    last_def: Dict[str, ast.AST] = {}
+    for fld, ds in defs.items():
+        for _, _, node in ds:
+            if fld not in last_def or (node.lineno, node.col_offset) > (last_def[fld].lineno, last_def[fld].col_offset):
+                last_def[fld] = node
+    n = 0
+    for fld, ds in defs.items():
+        for _, val, node in ds:
+            for s2 in subterms(val):
+                if s2[0] == "fld" and s2[1] == ("sym", "self") and s2[2] in last_def and s2[2] != fld:
+                    later = last_def[s2[2]]
+                    n += 1
+                    ok = (later.lineno, later.col_offset) < (node.lineno, node.col_offset)
+                    rep.check(
+                        ok,
+                        r,
+                        ci.module,
+                        init.qualname,
+                        f"{fld.split('.__')[-1]} reads {s2[2].split('.__')[-1]} after its last definition",
+                        f"{short(node, 90)} reads {s2[2]} but that field is (re)defined later in the constructor by {short(later, 90)}: the value read is the provisional one "
+                        "(e.g. a fee still ZERO before the crypto fee is converted), so the derived figure and every cost basis computed from it are wrong",
+                        loc(node),
+                    )
+    if n == 0:
+        rep.ok(r, f"{ci.name}: no constructor definition reads another field", "")
 
 
 def _check_in(rep, r, m, ci):
